@@ -1112,7 +1112,7 @@ def limit_cases(tier: str) -> list[dict]:
             for k in (5, 40):
                 out.append({"limit": "headers", "where": where, "H": H, "k": k, "seg": 128})
     for M in (100, 5000, 100000):
-        for api in ("read", "read_decode", "post-text", "post-file"):
+        for api in ("read", "read_decode", "post-text", "post-file", "read-nested", "read_decode-nested"):
             for enc in (None, "base64"):
                 if enc and api.startswith("post"):
                     continue
@@ -1191,14 +1191,26 @@ def check_limit(rec: Rec, case: dict) -> None:
                 coro = req.post()
                 want_exc = HTTPRequestEntityTooLarge
             else:
+                nested = case["api"].endswith("-nested")
                 pre = b"--BOUND\r\n" + part_hdr + b"X-Ok: 1\r\n\r\n"
                 data = pre + content + b"\r\n--BOUND--\r\n"
+                if nested:
+                    # the same part one level down: the limit is the connection's, not the outermost reader's
+                    opre = b"--OUT\r\nContent-Type: multipart/mixed; boundary=BOUND\r\n\r\n"
+                    data = opre + data + b"\r\n--OUT--\r\n"
+                    pre = opre + pre
                 stream, _ = make_stream(loop)
-                reader = MultipartReader({hdrs.CONTENT_TYPE: ctype}, stream, client_max_size=M)
+                reader = MultipartReader({hdrs.CONTENT_TYPE: "multipart/mixed; boundary=OUT" if nested else ctype}, stream, client_max_size=M)
 
                 async def rd():
                     part = await reader.next()
-                    if case["api"] == "read":
+                    if nested:
+                        part = await part.next()
+                    if case["api"].startswith("read_decode"):
+                        await part.read(decode=True)
+                    elif case["api"] == "read-nested":
+                        await part.read()
+                    elif case["api"] == "read":
                         await part.read()
                     else:
                         await part.read(decode=True)
